@@ -22,7 +22,10 @@ func Burst(d time.Duration, fs ...func()) bool {
 		go func(f func()) {
 			defer wg.Done()
 			ready.Add(1)
-			for !gate.Load() {
+			for spins := 0; !gate.Load(); spins++ {
+				if spins > 2000 {
+					runtime.Gosched() // oversubscribed machine: do not starve the goroutine that opens the gate
+				}
 			}
 			f()
 		}(f)
